@@ -62,3 +62,17 @@ Proof.
   intros c es d g. apply clock_dominates; [apply id_import_export|apply l_local_id|apply l_local_not_tx].
 Qed.
 Print Assumptions C15_clock_dominates_list.
+
+(* Document values of any nesting depth and any number of members: the nodes of the tree created for ONE value take
+   the operation's timestamp with consecutive delimiters i, i+1, ... (one per node, parents before children, members
+   in order), so no two of them share an identifier *)
+From Orda.Model Require Import Doc.
+From Orda.Proofs Require Import DocFacts.
+Theorem C15_nested_value_identifiers : forall t v i,
+  let '(j, i') := create t v i in
+  i' = (i + N.of_nat (vcount v))%N /\ all_cs j = map (ts_at t) (nrange i (vcount v)).
+Proof. exact create_ids. Qed.
+Print Assumptions C15_nested_value_identifiers.
+Theorem C15_nested_value_identifiers_distinct : forall t v i, NoDup (all_cs (fst (create t v i))).
+Proof. exact create_ids_distinct. Qed.
+Print Assumptions C15_nested_value_identifiers_distinct.
